@@ -49,7 +49,8 @@ PROPS = {
                     "boundaries; termination of every loop; no recursion; no arithmetic overflow; no out-of-bounds index. "
                     "Diagnostics line/column index arithmetic likewise.  Parser recovery (unit parser_progress): Parser::synchronize never moves "
                     "backwards and terminates on every token sequence, and the expected-statement recovery arm of parse_statement consumes at "
-                    "least one token whenever one is left (so a statement loop cannot spin on a token no rule accepts)."),
+                    "least one token whenever one is left (so a statement loop cannot spin on a token no rule accepts).  Resolver (unit return_fixpoint): the "
+                    "return-type refinement loop of predeclare_block_functions terminates (bounded by the number of functions in the block)."),
         "not_covered": ("spans fabricated by the parser and resolver (copied/merged from token spans), progress of the other parser loops (argument lists, blocks, expression continuation), "
                         "parser/resolver recursion depth, fmt-based rendering text, arena exhaustion while rendering very many diagnostics."),
         "trusted_base": [VERUS_TRUST, "three facts about valid UTF-8 (see unit scanner: utf8_ok, first_char, first_char_len)", "memchr_rs::memchr2 behaves as documented"],
@@ -119,7 +120,8 @@ PROPS = {
                     "`command` with TypeMismatch iff its argument is statically a non-string), on a user function in scope iff the count differs "
                     "from its parameter count, and with UndeclaredIdentifier iff the name is neither (call_rule: each error in its own category).  "
                     "DECLARED TYPES (unit resolver_assign): after `make x get e`, first declaration or re-declaration in the same scope, the static "
-                    "type later uses of x are checked against is e's type (dynamic if e has none)."),
+                    "type later uses of x are checked against is e's type (dynamic if e has none).  RETURN TYPES (unit return_fixpoint): every "
+                    "refinement pass re-infers EVERY function of the block, so a signature first inferred from not-yet-typed callees is corrected."),
         "not_covered": ("undeclared-variable, duplicate-function/parameter and reserved-name rules (loops over HashSet / closures), function "
                         "lookup itself (lookup_func is a parameter of call_rule; its innermost-scope rule is a Kani obligation under C04), which methods exist for which "
                         "receiver type and their argument count, "
